@@ -334,13 +334,25 @@ def run(R):
         def is_opt(k):
             return k in meta and any(n_ == 'Some' for _, n_ in meta[k])
         mentions_parse = lambda t_: term_contains(t_, lambda x: is_call(x, name='try_parse_grpc_timeout'))
-        mentions_server = lambda t_: mentions_field(t_, 'server_timeout')
+        # the locally configured timeout: the Option<Duration> field of GrpcTimeout (by type, not by name)
+        gadt = tonic.adt('grpc_timeout::GrpcTimeout')
+        sfields = [f_['n'] for f_ in gadt['variants'][0]['fields'] if re.search(r'Option<(std::time::|core::time::)?Duration>$', f_['ty'])]
+        if len(sfields) != 1:
+            raise CheckError('UNRECOGNISED: GrpcTimeout has %d Option<Duration> fields' % len(sfields))
+        mentions_server = lambda t_: mentions_field(t_, sfields[0])
         has_some_proj = lambda t_: term_contains(t_, lambda x: x and x[0] == 'variant' and x[2] == 'Some')
 
         def classify(v):
             v = strip_refs(mirlib.simplify(v))
             if v[0] == 'agg' and v[1].get('variant') == 'None':
                 return 'None'
+            # [client, server].into_iter().flatten().min(): an Option yields its value or nothing, min() of what is left is None for
+            # no value, the value for one, the smaller for two (std semantics of Option: IntoIterator and Iterator::min)
+            if is_call(v, name='min') and 'Iterator' in v[1] and is_call(strip_refs(v[2][0]), name='flatten'):
+                src_ = strip_refs(strip_refs(v[2][0])[2][0])
+                arr_ = strip_refs(src_[2][0]) if is_call(src_, name='into_iter') else None
+                if arr_ and arr_[0] == 'agg' and arr_[1].get('kind') == 'array':
+                    return 'minset:' + ','.join(sorted(classify(e_) for e_ in arr_[2]))
             if v[0] == 'agg' and v[1].get('variant') == 'Some':
                 x = strip_refs(v[2][0])
                 if is_call(x) and x[3] == 'min' and mentions_parse(x) and mentions_server(x):
@@ -365,9 +377,18 @@ def run(R):
             cl = view_get(vw, lambda k: is_opt(k) and mentions_parse(terms().get(k)) and not mentions_server(terms().get(k)))
             sv = view_get(vw, lambda k: is_opt(k) and mentions_server(terms().get(k)) and not mentions_parse(terms().get(k)))
             val = classify(b.origin_on_path(mt['args'][0], path))
+            # a header that does not parse is not a client timeout
+            perr = view_get(vw, lambda k: k in meta and any(n_ == 'Err' for _, n_ in meta[k]) and mentions_parse(terms().get(k)) and is_call(strip_refs(terms()[k][1]), name='try_parse_grpc_timeout'))
+            if perr == 'Err' and cl is None:
+                cl = 'None'
             for c_ in ((0, 1) if cl is None else ((1,) if cl == 'Some' else (0,))):
                 for s_ in ((0, 1) if sv is None else ((1,) if sv == 'Some' else (0,))):
                     eff_v = val
+                    if val.startswith('minset:'):
+                        els = val[len('minset:'):].split(',')
+                        have = sorted((['h'] if ('client-opt' in els and c_) else []) + (['s'] if ('server-opt' in els and s_) else []))
+                        other = [e_ for e_ in els if e_ not in ('client-opt', 'server-opt', 'None')]
+                        eff_v = ('?' + ','.join(other)) if other else {(): 'None', ('h',): 'h', ('s',): 's', ('h', 's'): 'min(h,s)'}[tuple(have)]
                     if val == 'client-opt':
                         eff_v = 'h' if c_ else 'None'
                     elif val == 'server-opt':
@@ -394,7 +415,7 @@ def run(R):
                 pe = view_get(vw, lambda k: k in meta and any(n_ == 'Err' for _, n_ in meta[k]) and mentions_parse(terms().get(k)) and is_call(strip_refs(terms()[k][1]), name='try_parse_grpc_timeout'))
                 if pe == 'Err' and path[-1] == mbb:
                     cv = classify(b.origin_on_path(mt['args'][0], path))
-                    okn = cv in ('None', 's', 'server-opt')
+                    okn = cv in ('None', 's', 'server-opt') or (cv.startswith('minset:') and set(cv[len('minset:'):].split(',')) <= {'None', 'server-opt'})
                     R.check(okn, 'C09.R4', 'parse-error->None', site(b, path[-1]), 'with an unparsable header the effective timeout is %s (no client timeout)' % cv)
             R.check(okn, 'C09.R4', 'parse-error->None:exists', site(b), 'the Err arm of try_parse_grpc_timeout leads to a call without client timeout')
         ps = [p for p in mirlib.panic_sites(b)]
